@@ -30,6 +30,7 @@ CONSTANTS
   SubTargets = {"A", "B"}
   AutoVals = {TRUE, FALSE}
   SubOneshot = {FALSE}
+  UdVals = {0}
   Senders = {"A", "B"}
   QuitCodes = {0, 1}
   ForeignOps = {"start", "pause", "resume", "stop", "deregister", "subscribe", "unsubscribe", "tell", "publish", "pill", "become", "unbecome", "unstash", "batchsize", "batchtimeout", "tokenbucket", "fdreg", "fddereg", "srclen", "stats", "bind"}
